@@ -13,7 +13,7 @@ CLAIMED = {
                 'that adds a vertex, is cleared after the Tds is re-keyed, the duplicate query dominates every '
                 'insertion attempt, candidates are re-resolved before the distance test (a float comparison, not a bit-pattern or hash key), the coordinates filed in the index '
                 'are read back from vertex storage, and slot-map insertion '
-                'happens only behind the UUID vacancy check. This is the cache-coherence and gating half of the '
+                'happens only behind the UUID vacancy check; a triangulation value handed a non-empty Tds (from_tds, rebuild candidates) starts without an index. This is the cache-coherence and gating half of the '
                 'property; the tolerance arithmetic is not decided.',
         'note': 'Trusted: rustc MIR and callee resolution; external slot-map/hash-map methods classified by name '
                 '(hand-out vs mutating) in engine/rules/flow.py; one assumed-infeasible edge '
@@ -26,7 +26,7 @@ CLAIMED = {
                 'DelaunayTriangulation and the exported ConvexHull queries (dev and release cfg): every path that '
                 'adds/removes a cell or vertex or replaces the Tds bumps the generation counter; every hull query '
                 'touches triangulation storage only behind the fresh edge of the creation-generation comparison; '
-                'the counter is only ever incremented. Decides the staleness clause, not the geometric hull clause.',
+                'the counter is only ever incremented; the hull side of the freshness test reads only write-once hull state. Decides the staleness clause, not the geometric hull clause.',
         'note': 'Trusted: rustc MIR; a whole-Tds replacement counts as bumped only when the replacement called '
                 'Tds::inherit_generation_from(live) (exception table empty since fix F12); Clone for Tds must share the '
                 'counter. In-place cell edits that do not change the key set are not covered.',
@@ -83,7 +83,7 @@ CLAIMED['C19'] = {
 CLAIMED['C03'] = {
     'text': 'Static, exhaustive over all paths of the 27 exported &mut operations and the 6 transactional-layer functions '
             '(dev and release cfg): no failing exit (Err, or Ok carrying InsertionOutcome::Skipped) is reached with Tds '
-            'storage mutated and not restored from a snapshot taken while it was clean. Interprocedural, path-sensitive '
+            'storage mutated and not restored from a snapshot taken while it was clean (a Skipped outcome passed up through match arms / re-wrapping is followed). Interprocedural, path-sensitive '
             'dataflow with result-edge correlation, snapshot recognition through closures / Options / tuples, and '
             'owner contracts; the same dataflow on the non-storage state (policies, insertion counter, duplicate index, '
             'topology settings) with copy-snapshots; the condition under which a conditional snapshot is taken must slice to '
